@@ -6,9 +6,14 @@ C09 — contract effects: what was pre-executed is what is verified and committe
 Property theorems only (helper lemmas live in `XV/Lemmas/Contract.lean`, the sandbox facts in
 `XV/Lemmas/Sandbox.lean`).  Every theorem quantifies over ALL contract programs `p : Prog` — any
 deterministic function from the results of the calls made so far to the next action (Get / Put / Del /
-range scan with bounds and early stop in any bucket of `bks`, i.e. nested calls included, token transfer,
-event, resource use, fail, error), every step bound `fuel`, every gas price and every committed state
-`db` with the table invariant `DB.WF` (kept by every commit: `commit_wf`).  The model is the code after the
+range scan with bounds and early stop in any bucket of `bks`, i.e. nested calls included, token transfer
+from any address to any address, event, resource use, fail, error), every step bound `fuel`, every gas price,
+every committed state `db` with the table invariant `DB.WF` (kept by every commit: `commit_wf`) and every
+first-run utxo reader `R` meeting the `SelectUtxos` contract (`UReader.Lawful`, C10) in any state `st`.
+Token selection and change are part of the model: the pre-execution records the inputs the reader hands
+out and the outputs (payment + change) of every transfer, the verification re-executes over
+`replayReader` of the DECLARED inputs and compares the transient entries `Flush` writes, and
+`isContractUtxoEffective` ties the declared inputs / outputs to the real ones.  The model is the code after the
 repairs e466658 and e01144a; the nested-call resource accounting of kernel contracts is modelled as it is
 (known finding `preexec-not-accepted:nested-call-resources`), hence `preexec_verifies_partial`.
 -/
@@ -41,21 +46,27 @@ theorem reachable_wf (bks : List Bucket) (price fuel : Nat) (txs : List Tx) :
 /-! ### re-execution over the declared reads reproduces the pre-execution -/
 
 /-- Re-running the request over the reader built from ANY declared read set that contains the returned one
-(`XMReaderFromRWSet` of what `GenRWSetFromTx` fetches for the declared keys) ends with the same outcome,
-transfers, events, resource use and write set; and every returned read cites the current version. -/
-theorem reexec_over_superset (bks : List Bucket) (fuel : Nat) (db : DB) (hdb : db.WF) (p : Prog) (pre : Pre)
-    (h : preexec bks fuel db p = some pre) (kin' : List REntry) (hsup : ∀ e ∈ pre.kin, e ∈ kin') :
+(`XMReaderFromRWSet` of what `GenRWSetFromTx` fetches for the declared keys) and over the replay reader of
+the returned contract inputs followed by ANY further inputs `T` ends with the same outcome, recorded token
+inputs and outputs (payments and change), events, resource use and write set, and leaves exactly `T`
+unconsumed; and every returned read cites the current version. -/
+theorem reexec_over_superset (bks : List Bucket) (fuel : Nat) (db : DB) (hdb : db.WF) {σ : Type} (R : UReader σ)
+    (hR : R.Lawful) (st : σ) (p : Prog) (pre : Pre)
+    (h : preexec bks fuel db R st p = some pre) (kin' : List REntry) (hsup : ∀ e ∈ pre.kin, e ∈ kin')
+    (T : List TxIn) :
     readsCurrent db pre.kin = true ∧
-    ∃ y, exec bks (memReader (rsOf db kin')) p fuel Ctx.init = (y, pre.outcome) ∧
-      y.m.xf = pre.cx ∧ y.m.ev = pre.ev ∧ y.m.used = pre.used ∧ y.m.peak = pre.peak ∧
+    ∃ y, exec bks (memReader (rsOf db kin')) replayReader p fuel (Ctx.init (pre.cin ++ T)) = (y, pre.outcome) ∧
+      y.tok.uin = pre.cin ∧ y.tok.uout = pre.cx ∧ y.tok.rd = T ∧
+      y.m.ev = pre.ev ∧ y.m.used = pre.used ∧ y.m.peak = pre.peak ∧
       wsetOf bks y.sb = pre.kout ∧ pre.used ≤ pre.peak := by
-  obtain ⟨x, hx, _, hkin, hkout, hcx, hev, hused, hpeak⟩ := preexec_eq h
+  obtain ⟨cap, hspec⟩ := hR
+  obtain ⟨x, hx, hne, hkin, hkout, hcin, hcx, hev, hused, hpeak⟩ := preexec_eq h
   have hr := reader_wf hdb
   have hinv : Inv db.reader x.sb := by
-    have := exec_inv bks hr p fuel Ctx.init (Inv.init _)
+    have := exec_inv bks hr R p fuel (Ctx.init st) (Inv.init _)
     rw [hx] at this; exact this
   have hconf : ∀ b, b ∉ bks → x.sb.inputs b = [] := by
-    have := exec_confined bks db.reader p fuel Ctx.init (fun _ _ => rfl)
+    have := exec_confined bks db.reader R p fuel (Ctx.init st) (fun _ _ => rfl)
     rw [hx] at this; exact this
   have hcur : ∀ b k d, (k, d) ∈ x.sb.inputs b → d = db.cur b k := by
     intro b k d hm
@@ -69,7 +80,7 @@ theorem reexec_over_superset (bks : List Bucket) (fuel : Nat) (db : DB) (hdb : d
     obtain ⟨_, d, hm, hv⟩ := mem_rsetOf.mp he
     simp only
     rw [← hcur b k d hm, hv]
-  · have hsub : ∀ b k d, (exec bks db.reader p fuel Ctx.init).1.sb.inputs.get b k = some d →
+  · have hsub : ∀ b k d, (exec bks db.reader R p fuel (Ctx.init st)).1.sb.inputs.get b k = some d →
         find k (rsOf db kin' b) = some d := by
       intro b k d hd
       rw [hx] at hd
@@ -84,39 +95,43 @@ theorem reexec_over_superset (bks : List Bucket) (fuel : Nat) (db : DB) (hdb : d
     have hfaith : ∀ b k d, find k (rsOf db kin' b) = some d → db.reader.get b k = some d := by
       intro b k d hd
       rw [reader_get, rsOf_faith db kin' b k d hd]
-    obtain ⟨e1, e2, e3⟩ := exec_replay bks hr (rsOf db kin') (rsOf_sorted db kin') hfaith p fuel
-      Ctx.init Ctx.init (Inv.init _) (Inv.init _) rfl rfl hsub
-    rw [hx] at e1 e2 e3
-    generalize exec bks (memReader (rsOf db kin')) p fuel Ctx.init = res at e1 e2 e3
+    obtain ⟨e1, e2, e3, e4, e5, e6⟩ := exec_replay bks hr (rsOf db kin') (rsOf_sorted db kin') hfaith hspec p T fuel
+      (Ctx.init st) (Ctx.init (pre.cin ++ T)) (Inv.init _) (Inv.init _) rfl rfl rfl rfl
+      (by rw [hx]; exact hne) hsub (by rw [hx]; simp [Ctx.init, hcin])
+    rw [hx] at e1 e2 e3 e4 e5
+    generalize exec bks (memReader (rsOf db kin')) replayReader p fuel (Ctx.init (pre.cin ++ T)) = res at e1 e2 e3 e4 e5 e6
     obtain ⟨y, o⟩ := res
-    simp only at e1 e2 e3
+    simp only at e1 e2 e3 e4 e5 e6
     subst e1
-    refine ⟨y, rfl, by rw [e2, hcx], by rw [e2, hev], by rw [e2, hused], by rw [e2, hpeak], ?_, ?_⟩
+    refine ⟨y, rfl, by rw [e4, hcin], by rw [e5, hcx], e6, by rw [e2, hev], by rw [e2, hused], by rw [e2, hpeak], ?_, ?_⟩
     · rw [hkout]; simp only [wsetOf, e3]
     · rw [hused, hpeak]
-      have := exec_used_le_peak bks db.reader p fuel Ctx.init (Nat.le_refl _)
+      have := exec_used_le_peak bks db.reader R p fuel (Ctx.init st) (Nat.le_refl _)
       rw [hx] at this; exact this
 
-/-- the special case of exactly the returned read set -/
-theorem reexec_of_preexec (bks : List Bucket) (fuel : Nat) (db : DB) (hdb : db.WF) (p : Prog) (pre : Pre)
-    (h : preexec bks fuel db p = some pre) :
+/-- the special case of exactly the returned read set and exactly the returned contract inputs -/
+theorem reexec_of_preexec (bks : List Bucket) (fuel : Nat) (db : DB) (hdb : db.WF) {σ : Type} (R : UReader σ)
+    (hR : R.Lawful) (st : σ) (p : Prog) (pre : Pre)
+    (h : preexec bks fuel db R st p = some pre) :
     readsCurrent db pre.kin = true ∧
-    ∃ y, exec bks (memReader (rsOf db pre.kin)) p fuel Ctx.init = (y, pre.outcome) ∧
-      y.m.xf = pre.cx ∧ y.m.ev = pre.ev ∧ y.m.used = pre.used ∧ y.m.peak = pre.peak ∧
-      wsetOf bks y.sb = pre.kout ∧ pre.used ≤ pre.peak :=
-  reexec_over_superset bks fuel db hdb p pre h pre.kin (fun _ he => he)
+    ∃ y, exec bks (memReader (rsOf db pre.kin)) replayReader p fuel (Ctx.init pre.cin) = (y, pre.outcome) ∧
+      y.tok.uin = pre.cin ∧ y.tok.uout = pre.cx ∧ y.tok.rd = [] ∧
+      y.m.ev = pre.ev ∧ y.m.used = pre.used ∧ y.m.peak = pre.peak ∧
+      wsetOf bks y.sb = pre.kout ∧ pre.used ≤ pre.peak := by
+  have := reexec_over_superset bks fuel db hdb R hR st p pre h pre.kin (fun _ he => he) []
+  simpa using this
 
 /-- outside the transient bucket every returned write is on a key of the returned read set -/
 theorem preexec_writes_read (bks : List Bucket) (hb : transient ∉ bks) (fuel : Nat) (db : DB) (hdb : db.WF)
-    (p : Prog) (pre : Pre) (h : preexec bks fuel db p = some pre) :
+    {σ : Type} (R : UReader σ) (st : σ) (p : Prog) (pre : Pre) (h : preexec bks fuel db R st p = some pre) :
     ∀ w ∈ pre.kout, ∃ r ∈ pre.kin, r.1 = w.1 ∧ r.2.1 = w.2.1 := by
   obtain ⟨x, hx, _, hkin, hkout, _⟩ := preexec_eq h
   have hr := reader_wf hdb
   have hinv : Inv db.reader x.sb := by
-    have := exec_inv bks hr p fuel Ctx.init (Inv.init _)
+    have := exec_inv bks hr R p fuel (Ctx.init st) (Inv.init _)
     rw [hx] at this; exact this
   have hwr : WR x.sb := by
-    have := exec_wr bks hr (reader_total db) p fuel Ctx.init (Inv.init _) WR.init
+    have := exec_wr bks hr (reader_total db) R p fuel (Ctx.init st) (Inv.init _) WR.init
     rw [hx] at this; exact this
   rintro ⟨b, k, v⟩ hw
   rw [hkout] at hw
@@ -135,51 +150,65 @@ theorem preexec_writes_read (bks : List Bucket) (hb : transient ∉ bks) (fuel :
 
 /-! ### pre-executed ⇒ verified -/
 
+/-- the assembled transaction's declared contract inputs and outputs are its real inputs and outputs -/
+theorem assemble_effective (price id : Nat) (p : Prog) (pre : Pre) : effective (assemble price id p pre) = true := by
+  simp only [effective, assemble, Bool.and_eq_true, decide_eq_true_eq, List.length_map, List.all_eq_true,
+    List.contains_iff_mem]
+  exact ⟨⟨⟨by simp, by simp⟩, fun u hu => List.mem_map.mpr ⟨u, hu, rfl⟩⟩, subMulti_refl _⟩
+
 /-- The transaction assembled from a successful pre-execution passes the whole verification against the
-same state — provided no nested call needs more resources than the contract's own use leaves
-(`pre.peak ≤ pre.used`; always true without resource-using nested calls). -/
+same state — whatever the contract transferred and however the first-run reader covered it (one input,
+several inputs, exactly or with change, any number of transfers) — provided no nested call needs more
+resources than the contract's own use leaves (`pre.peak ≤ pre.used`; always true without resource-using
+nested calls). -/
 theorem preexec_verifies_partial (bks : List Bucket) (hb : transient ∉ bks) (price fuel id : Nat) (db : DB)
-    (hdb : db.WF) (p : Prog) (pre : Pre) (h : preexec bks fuel db p = some pre) (hok : pre.outcome = .ok)
+    (hdb : db.WF) {σ : Type} (R : UReader σ) (hR : R.Lawful) (st : σ) (p : Prog) (pre : Pre)
+    (h : preexec bks fuel db R st p = some pre) (hok : pre.outcome = .ok)
     (hpeak : pre.peak ≤ pre.used) :
     verify bks price fuel db (assemble price id p pre) = true := by
-  obtain ⟨hcur, y, hy, hxf, hev, _, hpk, hw, _⟩ := reexec_of_preexec bks fuel db hdb p pre h
-  have hwr := preexec_writes_read bks hb fuel db hdb p pre h
-  simp only [verify, assemble, Bool.and_eq_true]
-  refine ⟨⟨⟨⟨hcur, by simp⟩, subMulti_refl _⟩, ?_⟩, ?_⟩
-  · simp only [reexecOK, hy, hok]
-    simp only [Bool.and_eq_true, decide_eq_true_eq, beq_iff_eq]
-    exact ⟨⟨⟨by rw [hpk]; exact hpeak, by rw [hw]; exact sameSet_refl _⟩, hxf.symm⟩, hev.symm⟩
-  · simp only [writesRead, List.all_eq_true, List.any_eq_true, Bool.and_eq_true, beq_iff_eq]
+  obtain ⟨hcur, y, hy, hui, huo, _, hev, _, hpk, hw, _⟩ := reexec_of_preexec bks fuel db hdb R hR st p pre h
+  have hwr := preexec_writes_read bks hb fuel db hdb R st p pre h
+  have heff := assemble_effective price id p pre
+  simp only [verify, Bool.and_eq_true]
+  refine ⟨⟨⟨⟨hcur, by simp [assemble]⟩, heff⟩, ?_⟩, ?_⟩
+  · simp only [reexecOK, assemble, hy, hok]
+    simp only [Bool.and_eq_true, beq_iff_eq]
+    exact ⟨⟨by rw [hpk]; exact decide_eq_true hpeak, by rw [hw]; exact sameSet_refl _⟩, by rw [hui, huo, hev]⟩
+  · simp only [writesRead, assemble, List.all_eq_true, List.any_eq_true, Bool.and_eq_true, beq_iff_eq]
     intro w hwm
     obtain ⟨r, hr, h1, h2⟩ := hwr w hwm
     exact ⟨r, hr, h1, h2⟩
 
 /-- consequently it is committed by `SubmitTx` -/
 theorem preexec_submits_partial (bks : List Bucket) (hb : transient ∉ bks) (price fuel id : Nat) (db : DB)
-    (hdb : db.WF) (p : Prog) (pre : Pre) (h : preexec bks fuel db p = some pre) (hok : pre.outcome = .ok)
+    (hdb : db.WF) {σ : Type} (R : UReader σ) (hR : R.Lawful) (st : σ) (p : Prog) (pre : Pre)
+    (h : preexec bks fuel db R st p = some pre) (hok : pre.outcome = .ok)
     (hpeak : pre.peak ≤ pre.used) :
     submit bks price fuel db (assemble price id p pre) = (commit db (assemble price id p pre), true) := by
   unfold submit
-  rw [preexec_verifies_partial bks hb price fuel id db hdb p pre h hok hpeak]
+  rw [preexec_verifies_partial bks hb price fuel id db hdb R hR st p pre h hok hpeak]
   rfl
 
 /-- Declaring additional reads that cite current versions is harmless (the property does not ask for their
 rejection): the transaction still verifies — the re-execution never looks at a key the first run did not. -/
 theorem extra_current_reads_accepted (bks : List Bucket) (hb : transient ∉ bks) (price fuel id : Nat) (db : DB)
-    (hdb : db.WF) (p : Prog) (pre : Pre) (h : preexec bks fuel db p = some pre) (hok : pre.outcome = .ok)
+    (hdb : db.WF) {σ : Type} (R : UReader σ) (hR : R.Lawful) (st : σ) (p : Prog) (pre : Pre)
+    (h : preexec bks fuel db R st p = some pre) (hok : pre.outcome = .ok)
     (hpeak : pre.peak ≤ pre.used) (extra : List REntry) (hx : readsCurrent db extra = true) :
     verify bks price fuel db { assemble price id p pre with kin := pre.kin ++ extra } = true := by
-  obtain ⟨hcur, y, hy, hxf, hev, _, hpk, hw, _⟩ :=
-    reexec_over_superset bks fuel db hdb p pre h (pre.kin ++ extra) (fun _ he => List.mem_append_left _ he)
-  have hwr := preexec_writes_read bks hb fuel db hdb p pre h
-  simp only [verify, assemble, Bool.and_eq_true]
-  refine ⟨⟨⟨⟨?_, by simp⟩, subMulti_refl _⟩, ?_⟩, ?_⟩
+  obtain ⟨hcur, y, hy, hui, huo, _, hev, _, hpk, hw, _⟩ :=
+    reexec_over_superset bks fuel db hdb R hR st p pre h (pre.kin ++ extra) (fun _ he => List.mem_append_left _ he) []
+  rw [List.append_nil] at hy
+  have hwr := preexec_writes_read bks hb fuel db hdb R st p pre h
+  have heff := assemble_effective price id p pre
+  simp only [verify, Bool.and_eq_true]
+  refine ⟨⟨⟨⟨?_, by simp [assemble]⟩, heff⟩, ?_⟩, ?_⟩
   · simp only [readsCurrent, List.all_append, Bool.and_eq_true] at hcur hx ⊢
     exact ⟨hcur, hx⟩
-  · simp only [reexecOK, hy, hok]
-    simp only [Bool.and_eq_true, decide_eq_true_eq, beq_iff_eq]
-    exact ⟨⟨⟨by rw [hpk]; exact hpeak, by rw [hw]; exact sameSet_refl _⟩, hxf.symm⟩, hev.symm⟩
-  · simp only [writesRead, List.all_eq_true, List.any_eq_true, Bool.and_eq_true, beq_iff_eq]
+  · simp only [reexecOK, assemble, hy, hok]
+    simp only [Bool.and_eq_true, beq_iff_eq]
+    exact ⟨⟨by rw [hpk]; exact decide_eq_true hpeak, by rw [hw]; exact sameSet_refl _⟩, by rw [hui, huo, hev]⟩
+  · simp only [writesRead, assemble, List.all_eq_true, List.any_eq_true, Bool.and_eq_true, beq_iff_eq]
     intro w hwm
     obtain ⟨r, hr, h1, h2⟩ := hwr w hwm
     exact ⟨r, List.mem_append_left _ hr, h1, h2⟩
@@ -187,29 +216,32 @@ theorem extra_current_reads_accepted (bks : List Bucket) (hb : transient ∉ bks
 /-- Declaring the returned write set in another order is accepted too (`xmodel.Equal` sorts both sides);
 the versions the commit assigns then follow the declared order (`commit_exact`). -/
 theorem permuted_writes_accepted (bks : List Bucket) (hb : transient ∉ bks) (price fuel id : Nat) (db : DB)
-    (hdb : db.WF) (p : Prog) (pre : Pre) (h : preexec bks fuel db p = some pre) (hok : pre.outcome = .ok)
+    (hdb : db.WF) {σ : Type} (R : UReader σ) (hR : R.Lawful) (st : σ) (p : Prog) (pre : Pre)
+    (h : preexec bks fuel db R st p = some pre) (hok : pre.outcome = .ok)
     (hpeak : pre.peak ≤ pre.used) (kout' : List WEntry) (hlen : kout'.length = pre.kout.length)
     (h1 : ∀ w ∈ pre.kout, w ∈ kout') (h2 : ∀ w ∈ kout', w ∈ pre.kout) :
     verify bks price fuel db { assemble price id p pre with kout := kout' } = true := by
-  obtain ⟨hcur, y, hy, hxf, hev, _, hpk, hw, _⟩ := reexec_of_preexec bks fuel db hdb p pre h
-  have hwr := preexec_writes_read bks hb fuel db hdb p pre h
-  simp only [verify, assemble, Bool.and_eq_true]
-  refine ⟨⟨⟨⟨hcur, by simp⟩, subMulti_refl _⟩, ?_⟩, ?_⟩
-  · simp only [reexecOK, hy, hok]
-    simp only [Bool.and_eq_true, decide_eq_true_eq, beq_iff_eq]
-    refine ⟨⟨⟨by rw [hpk]; exact hpeak, ?_⟩, hxf.symm⟩, hev.symm⟩
+  obtain ⟨hcur, y, hy, hui, huo, _, hev, _, hpk, hw, _⟩ := reexec_of_preexec bks fuel db hdb R hR st p pre h
+  have hwr := preexec_writes_read bks hb fuel db hdb R st p pre h
+  have heff := assemble_effective price id p pre
+  simp only [verify, Bool.and_eq_true]
+  refine ⟨⟨⟨⟨hcur, by simp [assemble]⟩, heff⟩, ?_⟩, ?_⟩
+  · simp only [reexecOK, assemble, hy, hok]
+    simp only [Bool.and_eq_true, beq_iff_eq]
+    refine ⟨⟨by rw [hpk]; exact decide_eq_true hpeak, ?_⟩, by rw [hui, huo, hev]⟩
     rw [hw]
     simp only [sameSet, Bool.and_eq_true, beq_iff_eq, List.all_eq_true]
     exact ⟨hlen, fun w hwm => by simpa using h1 w hwm⟩
-  · simp only [writesRead, List.all_eq_true, List.any_eq_true, Bool.and_eq_true, beq_iff_eq]
+  · simp only [writesRead, assemble, List.all_eq_true, List.any_eq_true, Bool.and_eq_true, beq_iff_eq]
     intro w hwm
     obtain ⟨r, hr, e1, e2⟩ := hwr w (h2 w hwm)
     exact ⟨r, hr, e1, e2⟩
 
 /-- the statement without the resource hypothesis -/
 def preexec_verifies_statement : Prop :=
-  ∀ (bks : List Bucket), transient ∉ bks → ∀ (price fuel id : Nat) (db : DB), db.WF → ∀ (p : Prog) (pre : Pre),
-    preexec bks fuel db p = some pre → pre.outcome = .ok →
+  ∀ (bks : List Bucket), transient ∉ bks → ∀ (price fuel id : Nat) (db : DB), db.WF →
+    ∀ (st : List TxIn) (p : Prog) (pre : Pre),
+    preexec bks fuel db listReader st p = some pre → pre.outcome = .ok →
     verify bks price fuel db (assemble price id p pre) = true
 
 /-- a contract whose only action is a nested call that uses one unit of resources -/
@@ -220,8 +252,8 @@ def nestedUser : Prog := fun res => if res.isEmpty then some (.subuse 1) else no
 under `limit - used` and is refused ("resource exceeds"): corpus/C09/nested-call-resources.ops. -/
 theorem preexec_verifies_counterexample : ¬ preexec_verifies_statement := by
   intro h
-  have := h [1] (by decide) 0 5 1 DB.empty DB.empty_wf nestedUser
-    ⟨.ok, [], [], [], [], 0, 1, [.done]⟩ (by decide) rfl
+  have := h [1] (by decide) 0 5 1 DB.empty DB.empty_wf [] nestedUser
+    ⟨.ok, [], [], [], [], [], 0, 1, [.done]⟩ (by decide) rfl
   revert this
   decide
 
@@ -232,7 +264,7 @@ declared value (`0` = delete mark) with version `(txid, offset in TxOutputsExt)`
 an entry holds exactly what it held before (value and version). -/
 theorem commit_exact (db : DB) (t : Tx) (b : Bucket) (k : Key) :
     (commit db t).cur b k =
-      match lastW b k t.kout (nTransient t.cx t.ev) with
+      match lastW b k t.kout (nTransient t.cin t.cx t.ev) with
       | some (off, v) => ⟨mkVer t.id off, v⟩
       | none => db.cur b k :=
   applyKOut_cur t.id b k t.kout _ db
@@ -241,7 +273,7 @@ theorem commit_exact (db : DB) (t : Tx) (b : Bucket) (k : Key) :
 not a delete; keys without an entry are live iff they were. -/
 theorem commit_exact_live (db : DB) (t : Tx) (b : Bucket) (k : Key) :
     find k ((commit db t).live b) =
-      match lastW b k t.kout (nTransient t.cx t.ev) with
+      match lastW b k t.kout (nTransient t.cin t.cx t.ev) with
       | some (off, v) => if v = 0 then none else some ⟨mkVer t.id off, v⟩
       | none => find k (db.live b) :=
   applyKOut_live t.id b k t.kout _ db
@@ -255,7 +287,7 @@ theorem commit_untouched (db : DB) (t : Tx) (b : Bucket) (k : Key)
 theorem commit_written (db : DB) (t : Tx) (b : Bucket) (k : Key)
     (h : ∃ w ∈ t.kout, w.1 = b ∧ w.2.1 = k) :
     ∃ off v, (commit db t).cur b k = ⟨mkVer t.id off, v⟩ ∧ (∃ w ∈ t.kout, w = (b, k, v)) := by
-  obtain ⟨o, v, e, _⟩ := lastW_some b k t.kout (nTransient t.cx t.ev) h
+  obtain ⟨o, v, e, _⟩ := lastW_some b k t.kout (nTransient t.cin t.cx t.ev) h
   refine ⟨o, v, by rw [commit_exact, e], ?_⟩
   -- the entry `lastW` found is an entry of the list
   have hmem : ∀ (l : List WEntry) (off o v : Nat), lastW b k l off = some (o, v) → (b, k, v) ∈ l := by
@@ -292,42 +324,101 @@ theorem tamper_read_version_rejected (bks : List Bucket) (price fuel : Nat) (db 
     exact ⟨e, he, hv⟩
   simp [verify, this]
 
-/-- A transaction that keeps the request and the read set of a pre-execution but declares another write
-set (a value changed, a write dropped, a write added — anything that is not a permutation of the returned
-write set) is refused: the re-execution reproduces the returned write set. -/
-theorem tamper_write_rejected (bks : List Bucket) (price fuel : Nat) (db : DB) (hdb : db.WF) (p : Prog)
-    (pre : Pre) (h : preexec bks fuel db p = some pre) (t : Tx) (hp : t.prog = p) (hk : t.kin = pre.kin)
-    (hw : sameSet t.kout pre.kout = false) : verify bks price fuel db t = false := by
-  obtain ⟨_, y, hy, _, _, _, _, hws, _⟩ := reexec_of_preexec bks fuel db hdb p pre h
+/-- A transaction that keeps the request, the read set and the contract inputs of a pre-execution but
+declares another write set (a value changed, a write dropped, a write added — anything that is not a
+permutation of the returned write set) is refused: the re-execution reproduces the returned write set. -/
+theorem tamper_write_rejected (bks : List Bucket) (price fuel : Nat) (db : DB) (hdb : db.WF) {σ : Type}
+    (R : UReader σ) (hR : R.Lawful) (st : σ) (p : Prog)
+    (pre : Pre) (h : preexec bks fuel db R st p = some pre) (t : Tx) (hp : t.prog = p) (hk : t.kin = pre.kin)
+    (hi : t.cin = pre.cin) (hw : sameSet t.kout pre.kout = false) : verify bks price fuel db t = false := by
+  obtain ⟨_, y, hy, _, _, _, _, _, _, hws, _⟩ := reexec_of_preexec bks fuel db hdb R hR st p pre h
   have : reexecOK bks fuel db t = false := by
-    simp only [reexecOK, hp, hk, hy]
+    simp only [reexecOK, hp, hk, hi, hy]
     cases pre.outcome <;> simp [hws, hw]
   simp [verify, this]
 
-/-- the declared contract transfer (transient `ContractUtxo.Outputs`) differs from what the contract does -/
-theorem tamper_transfer_rejected (bks : List Bucket) (price fuel : Nat) (db : DB) (hdb : db.WF) (p : Prog)
-    (pre : Pre) (h : preexec bks fuel db p = some pre) (t : Tx) (hp : t.prog = p) (hk : t.kin = pre.kin)
-    (hc : t.cx ≠ pre.cx) : verify bks price fuel db t = false := by
-  obtain ⟨_, y, hy, hxf, _, _, _, _, _⟩ := reexec_of_preexec bks fuel db hdb p pre h
+/-- the declared contract outputs (transient `ContractUtxo.Outputs`: payments and change) differ from what
+the contract does -/
+theorem tamper_transfer_rejected (bks : List Bucket) (price fuel : Nat) (db : DB) (hdb : db.WF) {σ : Type}
+    (R : UReader σ) (hR : R.Lawful) (st : σ) (p : Prog)
+    (pre : Pre) (h : preexec bks fuel db R st p = some pre) (t : Tx) (hp : t.prog = p) (hk : t.kin = pre.kin)
+    (hi : t.cin = pre.cin) (hc : t.cx ≠ pre.cx) : verify bks price fuel db t = false := by
+  obtain ⟨_, y, hy, hui, huo, _, _, _, _, _, _⟩ := reexec_of_preexec bks fuel db hdb R hR st p pre h
   have : reexecOK bks fuel db t = false := by
-    simp only [reexecOK, hp, hk, hy]
-    cases pre.outcome <;> simp [hxf, hc]
+    simp only [reexecOK, hp, hk, hi, hy]
+    cases pre.outcome <;> simp
+    intro _ _ he
+    exact hc ((transientOf_inj.mp he).2.1.trans huo)
+  simp [verify, this]
+
+/-- Further contract inputs declared behind the returned ones (token outputs of anybody: a declared
+contract input is exempt from the owner's signature) are refused: the re-execution does not consume them,
+so the inputs `Flush` records differ from the declared ones. -/
+theorem extra_contract_input_rejected (bks : List Bucket) (price fuel : Nat) (db : DB) (hdb : db.WF) {σ : Type}
+    (R : UReader σ) (hR : R.Lawful) (st : σ) (p : Prog)
+    (pre : Pre) (h : preexec bks fuel db R st p = some pre) (t : Tx) (hp : t.prog = p) (hk : t.kin = pre.kin)
+    (extra : List TxIn) (hx : extra ≠ []) (hi : t.cin = pre.cin ++ extra) : verify bks price fuel db t = false := by
+  obtain ⟨_, y, hy, hui, _, _, _, _, _, _, _⟩ :=
+    reexec_over_superset bks fuel db hdb R hR st p pre h pre.kin (fun _ he => he) extra
+  have : reexecOK bks fuel db t = false := by
+    simp only [reexecOK, hp, hk, hi, hy]
+    cases pre.outcome <;> simp
+    intro _ _ he
+    have := (transientOf_inj.mp he).1
+    rw [hui] at this
+    exact hx (List.append_cancel_left (as := pre.cin) (by simpa using this))
   simp [verify, this]
 
 /-- the declared events differ from what the contract emits -/
-theorem tamper_event_rejected (bks : List Bucket) (price fuel : Nat) (db : DB) (hdb : db.WF) (p : Prog)
-    (pre : Pre) (h : preexec bks fuel db p = some pre) (t : Tx) (hp : t.prog = p) (hk : t.kin = pre.kin)
-    (he : t.ev ≠ pre.ev) : verify bks price fuel db t = false := by
-  obtain ⟨_, y, hy, _, hev, _, _, _, _⟩ := reexec_of_preexec bks fuel db hdb p pre h
+theorem tamper_event_rejected (bks : List Bucket) (price fuel : Nat) (db : DB) (hdb : db.WF) {σ : Type}
+    (R : UReader σ) (hR : R.Lawful) (st : σ) (p : Prog)
+    (pre : Pre) (h : preexec bks fuel db R st p = some pre) (t : Tx) (hp : t.prog = p) (hk : t.kin = pre.kin)
+    (hi : t.cin = pre.cin) (he : t.ev ≠ pre.ev) : verify bks price fuel db t = false := by
+  obtain ⟨_, y, hy, _, _, _, hev, _, _, _, _⟩ := reexec_of_preexec bks fuel db hdb R hR st p pre h
   have : reexecOK bks fuel db t = false := by
-    simp only [reexecOK, hp, hk, hy]
-    cases pre.outcome <;> simp [hev, he]
+    simp only [reexecOK, hp, hk, hi, hy]
+    cases pre.outcome <;> simp
+    intro _ _ hte
+    exact he ((transientOf_inj.mp hte).2.2.trans hev)
   simp [verify, this]
 
-/-- the real outputs do not contain the declared contract transfers (an output re-routed or lowered) -/
+/-- the real outputs do not contain the declared contract outputs (an output re-routed or lowered) -/
 theorem reroute_rejected (bks : List Bucket) (price fuel : Nat) (db : DB) (t : Tx)
     (h : subMulti t.cx t.outs = false) : verify bks price fuel db t = false := by
-  simp [verify, h]
+  simp [verify, effective, h]
+
+/-- An accepted transaction really pays every contract output as often as the contract made it: an output
+(receiver, amount) the contract produced `n` times occurs at least `n` times among the real outputs
+(`isSubOutputs` counts; one real output cannot stand for two identical contract outputs). -/
+theorem accepted_pays_each_output (bks : List Bucket) (price fuel : Nat) (db : DB) (t : Tx)
+    (h : verify bks price fuel db t = true) (o : TxOut) : t.cx.count o ≤ t.outs.count o := by
+  simp only [verify, effective, Bool.and_eq_true] at h
+  exact (subMulti_iff_count _ _).mp h.1.1.2.2 o
+
+/-- Redirecting ONE of the contract's outputs — also one of several identical ones — is refused: the real
+outputs are the declared ones with output `i` given to another receiver or another amount, plus any outputs
+`extra` that do not restore it. -/
+theorem redirect_one_output_rejected (bks : List Bucket) (price fuel : Nat) (db : DB) (t : Tx) (i : Nat)
+    (hi : i < t.cx.length) (o' : TxOut) (hne : o' ≠ t.cx[i]) (extra : List TxOut) (hx : t.cx[i] ∉ extra)
+    (ho : t.outs = t.cx.set i o' ++ extra) : verify bks price fuel db t = false := by
+  apply reroute_rejected
+  cases hs : subMulti t.cx t.outs with
+  | false => rfl
+  | true =>
+    have h1 := (subMulti_iff_count _ _).mp hs t.cx[i]
+    rw [ho, List.count_append, List.count_eq_zero_of_not_mem hx] at h1
+    have h2 := count_set_ne t.cx i hi o' hne
+    omega
+
+/-- the declared contract inputs are not all inputs of the transaction -/
+theorem input_not_spent_rejected (bks : List Bucket) (price fuel : Nat) (db : DB) (t : Tx) (u : TxIn)
+    (hu : u ∈ t.cin) (hn : u.ref ∉ t.ins) : verify bks price fuel db t = false := by
+  have : effective t = false := by
+    have : t.cin.all (fun u => t.ins.contains u.ref) = false := by
+      simp only [List.all_eq_false, List.contains_iff_mem]
+      exact ⟨u, hu, hn⟩
+    simp only [effective, this, Bool.and_false, Bool.false_and]
+  simp [verify, this]
 
 /-- a write to a key that is not among the declared reads (an extra write to an unread key; a read of a
 written key dropped) -/
@@ -338,25 +429,29 @@ theorem write_unread_rejected (bks : List Bucket) (price fuel : Nat) (db : DB) (
     exact ⟨w, hw, fun r hrm h1 h2 => hr r hrm ⟨h1, h2⟩⟩
   simp [verify, this]
 
-/-- Whatever request a transaction carries (changed arguments, method, contract): if it is accepted, then
-re-executing THAT request over the declared reads succeeds within the declared limit and produces exactly
-the declared writes, transfers and events; all declared reads are current; the fee covers the declared
-limit; the declared transfers are real outputs; written keys are declared reads. -/
+/-- Whatever request a transaction carries (changed arguments, method, contract) and whatever contract
+inputs it declares: if it is accepted, then re-executing THAT request over the declared reads and the
+declared contract inputs succeeds within the declared limit, consumes exactly the declared inputs in their
+order and produces exactly the declared writes, contract outputs and events; all declared reads are
+current; the fee covers the declared limit; the declared contract inputs are inputs and the declared
+contract outputs are outputs of the transaction; written keys are declared reads. -/
 theorem verify_sound (bks : List Bucket) (price fuel : Nat) (db : DB) (t : Tx)
     (h : verify bks price fuel db t = true) :
-    readsCurrent db t.kin = true ∧ price * t.limit ≤ t.fee ∧ subMulti t.cx t.outs = true ∧ writesRead t = true ∧
-    ∃ y, exec bks (memReader (rsOf db t.kin)) t.prog fuel Ctx.init = (y, .ok) ∧ y.m.peak ≤ t.limit ∧
-      sameSet t.kout (wsetOf bks y.sb) = true ∧ t.cx = y.m.xf ∧ t.ev = y.m.ev := by
+    readsCurrent db t.kin = true ∧ price * t.limit ≤ t.fee ∧ effective t = true ∧ writesRead t = true ∧
+    ∃ y, exec bks (memReader (rsOf db t.kin)) replayReader t.prog fuel (Ctx.init t.cin) = (y, .ok) ∧
+      y.m.peak ≤ t.limit ∧ sameSet t.kout (wsetOf bks y.sb) = true ∧
+      t.cin = y.tok.uin ∧ t.cx = y.tok.uout ∧ t.ev = y.m.ev := by
   simp only [verify, Bool.and_eq_true, decide_eq_true_eq] at h
   obtain ⟨⟨⟨⟨h1, h2⟩, h3⟩, h4⟩, h5⟩ := h
   refine ⟨h1, h2, h3, h5, ?_⟩
   unfold reexecOK at h4
-  generalize exec bks (memReader (rsOf db t.kin)) t.prog fuel Ctx.init = res at h4
+  generalize exec bks (memReader (rsOf db t.kin)) replayReader t.prog fuel (Ctx.init t.cin) = res at h4
   obtain ⟨y, o⟩ := res
   cases o with
   | ok =>
     simp only [Bool.and_eq_true, decide_eq_true_eq, beq_iff_eq] at h4
-    exact ⟨y, rfl, h4.1.1.1, h4.1.1.2, h4.1.2, h4.2⟩
+    obtain ⟨e1, e2, e3⟩ := transientOf_inj.mp h4.2
+    exact ⟨y, rfl, h4.1.1, h4.1.2, e1, e2, e3⟩
   | failed => simp at h4
   | error => simp at h4
 
@@ -382,12 +477,13 @@ theorem underpaid_rejected (bks : List Bucket) (price fuel : Nat) (db : DB) (t :
   simp [verify, this]
 
 /-- the declared limit is below what the execution uses -/
-theorem limit_below_use_rejected (bks : List Bucket) (price fuel : Nat) (db : DB) (hdb : db.WF) (p : Prog)
-    (pre : Pre) (h : preexec bks fuel db p = some pre) (t : Tx) (hp : t.prog = p) (hk : t.kin = pre.kin)
-    (hl : t.limit < pre.used) : verify bks price fuel db t = false := by
-  obtain ⟨_, y, hy, _, _, _, hpk, _, hle⟩ := reexec_of_preexec bks fuel db hdb p pre h
+theorem limit_below_use_rejected (bks : List Bucket) (price fuel : Nat) (db : DB) (hdb : db.WF) {σ : Type}
+    (R : UReader σ) (hR : R.Lawful) (st : σ) (p : Prog)
+    (pre : Pre) (h : preexec bks fuel db R st p = some pre) (t : Tx) (hp : t.prog = p) (hk : t.kin = pre.kin)
+    (hi : t.cin = pre.cin) (hl : t.limit < pre.used) : verify bks price fuel db t = false := by
+  obtain ⟨_, y, hy, _, _, _, _, _, hpk, _, hle⟩ := reexec_of_preexec bks fuel db hdb R hR st p pre h
   have : reexecOK bks fuel db t = false := by
-    simp only [reexecOK, hp, hk, hy]
+    simp only [reexecOK, hp, hk, hi, hy]
     cases pre.outcome <;> simp
     intro hc
     rw [hpk] at hc
@@ -397,10 +493,10 @@ theorem limit_below_use_rejected (bks : List Bucket) (price fuel : Nat) (db : DB
 /-! ### failed calls change nothing -/
 
 /-- a call that aborts with an error yields no response to assemble -/
-theorem error_call_no_response (bks : List Bucket) (fuel : Nat) (db : DB) (p : Prog)
-    (h : (exec bks db.reader p fuel Ctx.init).2 = .error) : preexec bks fuel db p = none := by
+theorem error_call_no_response (bks : List Bucket) (fuel : Nat) (db : DB) {σ : Type} (R : UReader σ) (st : σ)
+    (p : Prog) (h : (exec bks db.reader R p fuel (Ctx.init st)).2 = .error) : preexec bks fuel db R st p = none := by
   unfold preexec
-  generalize exec bks db.reader p fuel Ctx.init = res at h
+  generalize exec bks db.reader R p fuel (Ctx.init st) = res at h
   obtain ⟨x, o⟩ := res
   simp only at h
   subst h
@@ -408,12 +504,13 @@ theorem error_call_no_response (bks : List Bucket) (fuel : Nat) (db : DB) (p : P
 
 /-- a call that fails (response status >= 400) is refused if a client assembles and submits it anyway,
 whatever write set, transfers, events, limit and fee it declares -/
-theorem failed_call_rejected (bks : List Bucket) (price fuel : Nat) (db : DB) (hdb : db.WF) (p : Prog)
-    (pre : Pre) (h : preexec bks fuel db p = some pre) (hf : pre.outcome ≠ .ok) (t : Tx) (hp : t.prog = p)
-    (hk : t.kin = pre.kin) : verify bks price fuel db t = false := by
-  obtain ⟨_, y, hy, _⟩ := reexec_of_preexec bks fuel db hdb p pre h
+theorem failed_call_rejected (bks : List Bucket) (price fuel : Nat) (db : DB) (hdb : db.WF) {σ : Type}
+    (R : UReader σ) (hR : R.Lawful) (st : σ) (p : Prog)
+    (pre : Pre) (h : preexec bks fuel db R st p = some pre) (hf : pre.outcome ≠ .ok) (t : Tx) (hp : t.prog = p)
+    (hk : t.kin = pre.kin) (hi : t.cin = pre.cin) : verify bks price fuel db t = false := by
+  obtain ⟨_, y, hy, _⟩ := reexec_of_preexec bks fuel db hdb R hR st p pre h
   have : reexecOK bks fuel db t = false := by
-    simp only [reexecOK, hp, hk, hy]
+    simp only [reexecOK, hp, hk, hi, hy]
     cases ho : pre.outcome with
     | ok => exact absurd ho hf
     | failed => rfl
@@ -429,11 +526,12 @@ theorem rejected_noop (bks : List Bucket) (price fuel : Nat) (db : DB) (t : Tx)
   · rfl
 
 /-- hence a failed call changes nothing -/
-theorem failed_call_noop (bks : List Bucket) (price fuel : Nat) (db : DB) (hdb : db.WF) (p : Prog)
-    (pre : Pre) (h : preexec bks fuel db p = some pre) (hf : pre.outcome ≠ .ok) (t : Tx) (hp : t.prog = p)
-    (hk : t.kin = pre.kin) : submit bks price fuel db t = (db, false) := by
+theorem failed_call_noop (bks : List Bucket) (price fuel : Nat) (db : DB) (hdb : db.WF) {σ : Type}
+    (R : UReader σ) (hR : R.Lawful) (st : σ) (p : Prog)
+    (pre : Pre) (h : preexec bks fuel db R st p = some pre) (hf : pre.outcome ≠ .ok) (t : Tx) (hp : t.prog = p)
+    (hk : t.kin = pre.kin) (hi : t.cin = pre.cin) : submit bks price fuel db t = (db, false) := by
   unfold submit
-  rw [failed_call_rejected bks price fuel db hdb p pre h hf t hp hk]
+  rw [failed_call_rejected bks price fuel db hdb R hR st p pre h hf t hp hk hi]
   rfl
 
 /-- at the level of the state machine model of C05 (all tables, the pool): a transaction `doTx` refuses —
@@ -443,19 +541,25 @@ theorem refused_dotx_noop (e : XV.Chain.Env) (s : XV.Chain.St) (lh : Int) (i : N
   XV.C05.doTx_fail_noop e s lh i h
 
 /-! ### non-vacuity: a state with live, deleted and never-written keys, a program with a scan, data flow,
-a nested call, a transfer, an event and resource use -/
+a nested call, two transfers (the first covered exactly by two inputs, the second with change), an event
+and resource use -/
 
 /-- bucket 1: key 0 live (value 5), key 1 deleted, key 3 live (value 7); bucket 2: key 0 live -/
 def demoDB : DB :=
   commit (commit DB.empty
-    { id := 1, prog := fun _ => none, limit := 0, fee := 0, kin := [], cx := [], ev := [], outs := [],
-      kout := [(1, 0, 5), (1, 1, 4), (1, 3, 7), (2, 0, 9)] })
-    { id := 2, prog := fun _ => none, limit := 0, fee := 0, kin := [], cx := [], ev := [], outs := [],
-      kout := [(1, 1, 0)] }
+    { id := 1, prog := fun _ => none, limit := 0, fee := 0, kin := [], cin := [], cx := [], ev := [], ins := [],
+      outs := [], kout := [(1, 0, 5), (1, 1, 4), (1, 3, 7), (2, 0, 9)] })
+    { id := 2, prog := fun _ => none, limit := 0, fee := 0, kin := [], cin := [], cx := [], ev := [], ins := [],
+      outs := [], kout := [(1, 1, 0)] }
 
 theorem demoDB_wf : demoDB.WF := commit_wf _ (commit_wf _ DB.empty_wf _) _
 
-/-- get k0; put k2 := what was read; scan [0, 9) two items; delete k3; (nested) put 2/k0; transfer; event; burn 3 -/
+/-- the unspent outputs the first-run reader selects from: address 3 (the paying account) owns four
+outputs worth 5, address 7 one in between -/
+def demoUtxo : List TxIn := [⟨0, 3, 5⟩, ⟨1, 3, 5⟩, ⟨2, 7, 9⟩, ⟨3, 3, 5⟩, ⟨4, 3, 5⟩]
+
+/-- get k0; put k2 := what was read; scan [0, 9) two items; delete k3; (nested) put 2/k0; pay 10 to address 1
+(two inputs, no change); pay 3 to address 2 (one input, change 2); event; burn 3 -/
 def demoProg : Prog := fun res =>
   match res with
   | [] => some (.op (.get 1 0))
@@ -463,16 +567,20 @@ def demoProg : Prog := fun res =>
   | [_, _] => some (.op (.sel 1 0 (some 9) 2))
   | [_, _, _] => some (.op (.del 1 3))
   | [_, _, _, _] => some (.op (.put 2 0 8))
-  | [_, _, _, _, _] => some (.transfer 1 10)
-  | [_, _, _, _, _, _] => some (.event 3)
-  | [_, _, _, _, _, _, _] => some (.burn 3)
+  | [_, _, _, _, _] => some (.transfer 3 1 10)
+  | [_, _, _, _, _, _] => some (.transfer 3 2 3)
+  | [_, _, _, _, _, _, _] => some (.event 3)
+  | [_, _, _, _, _, _, _, _] => some (.burn 3)
   | _ => none
 
 def demoPre : Pre :=
   ⟨.ok, [(1, 0, mkVer 1 0), (1, 2, 0), (1, 3, mkVer 1 2), (2, 0, mkVer 1 3)], [(1, 2, 5), (1, 3, 0), (2, 0, 8)],
-   [(1, 10)], [3], 3, 3, [.got (.val 5), .done, .items (some [(0, 5), (2, 5)]), .done, .done, .done, .done, .done]⟩
+   [⟨0, 3, 5⟩, ⟨1, 3, 5⟩, ⟨3, 3, 5⟩], [⟨1, 10⟩, ⟨2, 3⟩, ⟨3, 2⟩], [3], 3, 3,
+   [.got (.val 5), .done, .items (some [(0, 5), (2, 5)]), .done, .done, .done, .done, .done, .done]⟩
 
-example : preexec [1, 2] 20 demoDB demoProg = some demoPre := by decide
+example : preexec [1, 2] 20 demoDB listReader demoUtxo demoProg = some demoPre := by decide
+-- what the pre-execution handed out stays locked in the first-run reader
+example : preexecRd [1, 2] 20 demoDB listReader demoUtxo demoProg = [⟨2, 7, 9⟩, ⟨4, 3, 5⟩] := by decide
 -- the hypotheses of `preexec_verifies_partial` hold, and so does its conclusion
 example : demoPre.outcome = .ok ∧ demoPre.peak ≤ demoPre.used := by decide
 example : verify [1, 2] 1 20 demoDB (assemble 1 7 demoProg demoPre) = true := by decide
@@ -483,14 +591,71 @@ example : (commit demoDB (assemble 1 7 demoProg demoPre)).cur 1 2 = ⟨mkVer 7 3
     find 3 ((commit demoDB (assemble 1 7 demoProg demoPre)).live 1) = none := by decide
 -- mutants: write value changed, re-routed output, fee lowered, limit lowered, stale version
 example : verify [1, 2] 1 20 demoDB { assemble 1 7 demoProg demoPre with kout := [(1, 2, 6), (1, 3, 0), (2, 0, 8)] } = false := by decide
-example : verify [1, 2] 1 20 demoDB { assemble 1 7 demoProg demoPre with outs := [(0, 10)] } = false := by decide
+example : verify [1, 2] 1 20 demoDB { assemble 1 7 demoProg demoPre with outs := [⟨0, 10⟩, ⟨2, 3⟩, ⟨3, 2⟩] } = false := by decide
 example : verify [1, 2] 1 20 demoDB { assemble 1 7 demoProg demoPre with fee := 2 } = false := by decide
 example : verify [1, 2] 1 20 demoDB { assemble 1 7 demoProg demoPre with limit := 2 } = false := by decide
 example : verify [1, 2] 1 20 (commit demoDB (assemble 1 7 demoProg demoPre)) (assemble 1 8 demoProg demoPre) = false := by decide
+-- token side: a contract input dropped from the declaration, an extra one declared (somebody else's output,
+-- spent as a real input too), the change output declared for another receiver (declared and real alike),
+-- a declared contract input that is not an input of the transaction
+example : verify [1, 2] 1 20 demoDB { assemble 1 7 demoProg demoPre with cin := [⟨0, 3, 5⟩, ⟨1, 3, 5⟩] } = false := by decide
+example : verify [1, 2] 1 20 demoDB { assemble 1 7 demoProg demoPre with
+    cin := demoPre.cin ++ [⟨2, 7, 9⟩], ins := [0, 1, 3, 2], outs := demoPre.cx ++ [⟨0, 9⟩] } = false := by decide
+example : verify [1, 2] 1 20 demoDB { assemble 1 7 demoProg demoPre with
+    cx := [⟨1, 10⟩, ⟨2, 3⟩, ⟨0, 2⟩], outs := [⟨1, 10⟩, ⟨2, 3⟩, ⟨0, 2⟩] } = false := by decide
+example : verify [1, 2] 1 20 demoDB { assemble 1 7 demoProg demoPre with ins := [0, 1, 8] } = false := by decide
+-- two declared contract inputs of equal worth swapped: the re-execution consumes them in the declared order
+-- and records them in that order, the transaction is accepted (the property does not ask for its rejection)
+example : verify [1, 2] 1 20 demoDB { assemble 1 7 demoProg demoPre with cin := [⟨1, 3, 5⟩, ⟨0, 3, 5⟩, ⟨3, 3, 5⟩] } = true := by decide
 -- a permuted write set and an extra current read are accepted (the property does not ask for their rejection)
 example : verify [1, 2] 1 20 demoDB { assemble 1 7 demoProg demoPre with kout := [(2, 0, 8), (1, 3, 0), (1, 2, 5)] } = true := by decide
 example : verify [1, 2] 1 20 demoDB { assemble 1 7 demoProg demoPre with kin := demoPre.kin ++ [(1, 1, mkVer 2 0)] } = true := by decide
 -- a failing call: pre-execution answers `failed` with a write set, the assembled transaction is refused
-example : (preexec [1] 9 demoDB (fun res => if res.isEmpty then some (.op (.put 1 0 2)) else some .fail)).map (·.outcome) = some .failed := by decide
+example : (preexec [1] 9 demoDB listReader demoUtxo
+    (fun res => if res.isEmpty then some (.op (.put 1 0 2)) else some .fail)).map (·.outcome) = some .failed := by decide
+-- a transfer the paying account cannot cover: the call errors, there is no response
+example : preexec [1] 9 demoDB listReader demoUtxo (fun res => if res.isEmpty then some (.transfer 3 1 21) else none) = none := by decide
+
+/-! ### the same payment made twice: counting matters -/
+
+/-- the contract pays 5 to address 1 twice (each covered exactly by one input) -/
+def twiceProg : Prog := fun res =>
+  match res with
+  | [] => some (.transfer 3 1 5)
+  | [_] => some (.transfer 3 1 5)
+  | _ => none
+
+def twicePre : Pre := ⟨.ok, [], [], [⟨0, 3, 5⟩, ⟨1, 3, 5⟩], [⟨1, 5⟩, ⟨1, 5⟩], [], 0, 0, [.done, .done]⟩
+
+example : preexec [1] 9 DB.empty listReader demoUtxo twiceProg = some twicePre := by decide
+example : verify [1] 0 9 DB.empty (assemble 0 7 twiceProg twicePre) = true := by decide
+/-- one of the two identical outputs is given to address 9: every declared output still occurs among the
+real outputs (set inclusion holds), but not as often as declared — refused -/
+example : verify [1] 0 9 DB.empty { assemble 0 7 twiceProg twicePre with outs := [⟨1, 5⟩, ⟨9, 5⟩] } = false := by decide
+example : ([⟨1, 5⟩, ⟨1, 5⟩] : List TxOut).all (fun o => ([⟨1, 5⟩, ⟨9, 5⟩] : List TxOut).contains o) = true := by decide
+-- the hypotheses of `redirect_one_output_rejected` are satisfiable (index 1, no further outputs)
+example : (⟨9, 5⟩ : TxOut) ≠ twicePre.cx[1] ∧ ([⟨1, 5⟩, ⟨9, 5⟩] : List TxOut) = twicePre.cx.set 1 ⟨9, 5⟩ ++ [] := by decide
+
+/-! ### the stopping rule of the replay reader matters -/
+
+/-- `UTXOReader.SelectUtxo` leaving its loop only when the sum EXCEEDS the amount -/
+def replayLoopStrict (a : Addr) (need : Nat) : List TxIn → Nat → Nat → Option (Nat × Nat)
+  | [], n, sum => some (n, sum)
+  | u :: rest, n, sum =>
+    if u.owner ≠ a then none
+    else if need < sum + u.amt then some (n + 1, sum + u.amt)
+    else replayLoopStrict a need rest (n + 1) (sum + u.amt)
+
+def replayReaderStrict : UReader (List TxIn) where
+  select st a need :=
+    match replayLoopStrict a need st 0 0 with
+    | none => (none, st)
+    | some (n, sum) => if sum < need then (none, st) else (some (st.take n, sum), st.drop n)
+
+/-- with that rule the re-execution of `demoProg` over the inputs its own pre-execution returned takes a
+third input for the exactly covered first payment and invents a change output (the rule `≤` of
+`replayReader` reproduces the pre-execution: `reexec_of_preexec`) -/
+example : (transfer replayReaderStrict ⟨demoPre.cin, [], []⟩ 3 1 10).1.uout = [⟨1, 10⟩, ⟨3, 5⟩] ∧
+    (transfer replayReader ⟨demoPre.cin, [], []⟩ 3 1 10).1.uout = [⟨1, 10⟩] := by decide
 
 end XV.C09
